@@ -31,3 +31,14 @@ package endpoint
 //@   ensures fresh(p)
 //@ func NewPairVerify(context, database) (p)
 //@   ensures fresh(p)
+
+// /resource (camera snapshot, C13). The image callback is application code; it is assumed to return an image or an error
+// (the handler dereferences the result). What is decided: for every request body the handler neither panics nor leaves
+// the response unanswered because of hc's own code.
+//@ funcvalue "github.com/brutella/hc/hap/endpoint.GetImageFunc"(width, height) (img, err)
+//@   ensures err == nil ==> img != nil && *img != nil
+//@   modifies heap
+//@ func (handler *Resource) ServeHTTP(response, request)
+//@   requires handler != nil && handler.imgFn != nil
+//@   requires response != nil && request != nil && request.Body != nil
+//@   modifies heap, sink(response), status(response), stream(request.Body)
